@@ -157,6 +157,9 @@ type gOp struct {
 	BadMd5   bool
 	Resum    *resumPlan
 	Between  *gOp // resumable upload: another request issued between initiation and completion
+	// Folder: the name was never uploaded and is a "/"-prefix of stored names; in the file store
+	// it is not representable as an object, so any error status is accepted (404 otherwise).
+	Folder bool
 }
 
 func (o gOp) String() string {
@@ -465,6 +468,9 @@ func (m *gModel) step(op gOp, r gResp) (string, string) {
 	case "Get":
 		cur := m.obj(op.Bucket, op.Name)
 		if cur == nil {
+			if op.Folder && r.Status >= 400 {
+				return "", ""
+			}
 			if r.Status != 404 {
 				return fail("absent-object", "metadata of an absent object must be 404")
 			}
@@ -479,6 +485,9 @@ func (m *gModel) step(op gOp, r gResp) (string, string) {
 	case "Media":
 		cur := m.obj(op.Bucket, op.Name)
 		if cur == nil {
+			if op.Folder && r.Status >= 400 {
+				return "", ""
+			}
 			if r.Status != 404 {
 				return fail("absent-object", "download of an absent object must be 404")
 			}
@@ -506,7 +515,7 @@ func (m *gModel) step(op gOp, r gResp) (string, string) {
 			return "", ""
 		}
 		if cur == nil {
-			if r.Status == 404 || (!cv.pass && cv.allowed[r.Status]) {
+			if r.Status == 404 || (!cv.pass && cv.allowed[r.Status]) || (op.Folder && r.Status >= 400) {
 				return "", ""
 			}
 			return fail("absent-object", "delete of an absent object must be 404 (or a precondition failure)")
